@@ -11,7 +11,7 @@ for p in selftest/mutants/${PFX}*.diff; do
   n=$(basename "$p" .diff)
   if ! git -C /repo apply "/verif/$p" 2>/tmp/apply.err; then echo "$n: APPLY-FAILED $(head -1 /tmp/apply.err)"; continue; fi
   VERIF_BUDGET_SCALE=$SCALE ./check.sh "$ID" quick > "/tmp/mut-$n.log" 2>&1; code=$?
-  rules=$(grep -E "^violation |^data race in" "/tmp/mut-$n.log" | sed 's/^violation //' | cut -c1-110 | tr '\n' ';')
+  rules=$(grep -a -E "^violation |^data race in" "/tmp/mut-$n.log" | sed 's/^violation //' | cut -c1-110 | tr '\n' ';')
   git -C /repo checkout -- . ; git -C /repo clean -fdq
   rm -f /verif/replays/*.json
   echo "$n: exit=$code $rules"
